@@ -242,9 +242,27 @@ def term_masks(kind, terms):
     return _RCACHE[key]
 
 
+def posn_monomer_probs(kind, pi):
+    """position-specific monomer probabilities: the marginal of the word probabilities at each position of the word"""
+    st = states_of(kind)
+    pi = numpy.asarray(pi, float)
+    idx = {c: i for i, c in enumerate(NUC)}
+    ps = numpy.zeros((len(st[0]), 4))
+    for w, s in zip(pi / pi.sum(), st):
+        for p, c in enumerate(s):
+            ps[p, idx[c]] += w
+    return ps / ps.sum(axis=1)[:, None]
+
+
 def word_probs(kind, form, pi):
     """stationary / root distribution over the states given the model's motif probabilities"""
     pi = numpy.asarray(pi, float)
+    if form == "monomers":
+        ps = posn_monomer_probs(kind, pi)
+        st = states_of(kind)
+        idx = {c: i for i, c in enumerate(NUC)}
+        w = numpy.array([math.prod(ps[p][idx[c]] for p, c in enumerate(s)) for s in st])
+        return w / w.sum()
     if form != "monomer":
         return pi / pi.sum()
     st = states_of(kind)
@@ -278,6 +296,13 @@ def rate_matrix(kind, terms, form, pi, values, exch=None, calibrated=True):
         W = numpy.zeros((n, n))
         for (i, j), (p, a, b) in change.items():
             W[i, j] = pi[idx[b]]
+        Q = R * W
+    elif form == "monomers":
+        ps = posn_monomer_probs(kind, pi)
+        idx = {c: i for i, c in enumerate(NUC)}
+        W = numpy.zeros((n, n))
+        for (i, j), (p, a, b) in change.items():
+            W[i, j] = ps[p, idx[b]]
         Q = R * W
     elif form == "conditional":
         W = numpy.zeros((n, n))
